@@ -607,7 +607,7 @@ pub fn driver_set(prop: Prop, thorough: bool) -> Vec<Planned> {
             // quick tier: the deviation only for the small unbounded drivers
             let calls: usize = programs.iter().map(|p| p.len()).sum();
             // deviation budget: Mode-U drivers in the thorough tier, the small Mode-U drivers in the quick tier
-            let spurious = if mode == Mode::U && (thorough || calls <= 4) { 1 } else { 0 };
+            let spurious = if mode == Mode::U && (thorough || calls <= 3) { 1 } else { 0 };
             out.push(Planned {
                 driver: HistDriver { cloned: pi == 1, label: format!("{} s{}{}", label, pi, if pi == 1 { " cloned" } else { "" }), path, prop, prelude: pre, programs: programs.clone(), audit: true },
                 mode,
